@@ -42,6 +42,7 @@ func xGenPropWrap(prop string, kind int, tier string, seed uint64, n int, e *Emi
 			o.VarArgPct = 60
 			o.BadInputPct = 40
 			o.NestedVarPct = 55
+			o.OobIntPct = 4
 			o.OmitVarPct = 45
 			o.DirPct = 8
 			pol = xPolicy{Null: 3, Err: 1, Thunk: 2}
@@ -72,12 +73,20 @@ func xGenPropWrap(prop string, kind int, tier string, seed uint64, n int, e *Emi
 		entry := []string{"do", "execute", "plan"}[i%3]
 		rq := &xRequest{s: s, doc: doc, text: text, op: op, inputs: inputs, pol: pol, seed: seed*1000003 + uint64(i), entry: entry, kind: kind}
 		obs := xRun(rq)
+		if obs.invalid && g.expectInvalid {
+			// deliberately invalid (Int literal outside 32 bits): rejection is the conforming answer
+			e.Emit(Case{Group: prop + "-rejected-by-validation", Desc: obs.desc, NT: true, Tags: []string{"oob-int-literal", "rejected"}})
+			continue
+		}
 		if obs.invalid {
 			invalid++
 			e.Emit(Case{Group: "generator-invalid", Desc: obs.desc, Tags: []string{"generator-invalid"}, Fail: strings.Join(obs.fails, "; ")})
 			continue
 		}
 		tags := append([]string{"entry-" + entry}, obs.tags...)
+		if g.expectInvalid {
+			tags = append(tags, "oob-int-literal-accepted")
+		}
 		if strings.Contains(text, "...") {
 			tags = append(tags, "fragments")
 		}
